@@ -81,7 +81,10 @@ func TestProp_ConcurrentHandshakes(t *testing.T) {
 		opts := make([]nodeenrollment.Option, 0, len(items)+spare)
 		opts = append(opts, items...)
 		acceptors := rapid.IntRange(2, 8).Draw(t, "acceptors")
-		rig := vkit.NewRig(w, vkit.RigConfig{Options: opts, Acceptors: acceptors})
+		// a third of the listeners sit on a unix socket: there every client has the same
+		// (empty) remote address
+		unix := rapid.IntRange(0, 2).Draw(t, "unixSocket") == 0
+		rig := vkit.NewRig(w, vkit.RigConfig{Options: opts, Acceptors: acceptors, Unix: unix})
 		rig.StallIsResult = true
 		defer rig.Close()
 
@@ -225,7 +228,7 @@ func TestProp_ConcurrentHandshakes(t *testing.T) {
 				kl = append(kl, fmt.Sprintf("%s=%d", k, v))
 			}
 			sort.Strings(kl)
-			desc := map[string]any{"option_slice": fmt.Sprintf("len=%d cap=%d", len(opts), cap(opts)), "listener_state_option": appState != nil, "acceptors": acceptors, "wave": kl, "storage_wrapper": wrapper}
+			desc := map[string]any{"option_slice": fmt.Sprintf("len=%d cap=%d", len(opts), cap(opts)), "listener_state_option": appState != nil, "unix_socket": unix, "acceptors": acceptors, "wave": kl, "storage_wrapper": wrapper}
 			rec.Case(fmt.Sprintf("wave/spare=%v/kinds=%d", spare > 0, len(kinds)), fmt.Sprint(desc), spare >= 1 && acceptors >= 2 && len(kinds) >= 2, func() any { return desc })
 			rec.Count("handshakes", int64(len(outs)))
 			byID := map[int]*client{}
